@@ -24,6 +24,7 @@ import (
 	authtypes "github.com/cosmos/cosmos-sdk/x/auth/types"
 	banktypes "github.com/cosmos/cosmos-sdk/x/bank/types"
 	govtypes "github.com/cosmos/cosmos-sdk/x/gov/types"
+	slashingtypes "github.com/cosmos/cosmos-sdk/x/slashing/types"
 	stakingtypes "github.com/cosmos/cosmos-sdk/x/staking/types"
 	abci "github.com/tendermint/tendermint/abci/types"
 	tmproto "github.com/tendermint/tendermint/proto/tendermint/types"
@@ -158,6 +159,7 @@ func init() {
 			c.end()
 		}
 		nextFresh := NV
+		jailed := map[int]bool{}
 		executed, refused := 0, 0
 		valID := func(a string) string {
 			for i := 0; i < NA; i++ {
@@ -202,7 +204,7 @@ func init() {
 			if k < 12 {
 				depth = []int{1, 0, 2, 3}[k%4]
 			}
-			kind := rng.Intn(4)
+			kind := rng.Intn(5)
 			if k < 12 {
 				kind = k / 4
 			}
@@ -298,6 +300,55 @@ func init() {
 				} else {
 					refused++
 					out.Hist[fmt.Sprintf("tx.com.refused.depth%d", depth)]++
+				}
+			case 4: // a JAILED validator (its tokens remain bonded-plus-unbonding stake): delegations by its own operator and by others
+				j := 15 + rng.Intn(3)
+				if !jailed[j] {
+					// set-up, as a downtime slash would do it: the staking keeper jails the validator
+					c.app.StakingKeeper.Jail(c.dctx(), sdk.ConsAddress(pks[j].Address()))
+					jailed[j] = true
+				}
+				who := j // the operator tops up its own bond
+				if rng.Chance(1, 3) {
+					who = rng.Intn(NV)
+				}
+				ctx := c.dctx()
+				tv, _ := c.app.StakingKeeper.GetValidator(ctx, valOf(j))
+				total := c.stakeTotal(ctx)
+				num := new(big.Int).Mul(big.NewInt(66), total)
+				num.Sub(num, new(big.Int).Mul(big.NewInt(1000), tv.Tokens.BigInt()))
+				a := new(big.Int).Quo(num, big.NewInt(934))
+				a.Add(a, big.NewInt(int64(rng.Intn(3)-1)*10000000000000)) // ±1e13: beyond the 18-decimal rounding of the projection
+				if a.Sign() <= 0 {
+					a = big.NewInt(1 + int64(rng.Intn(5)))
+				}
+				m := stakingtypes.NewMsgDelegate(c.addrs[who], valOf(j), sdk.NewCoin("rowan", sdk.NewIntFromBigInt(a)))
+				ns := []*node{wrapDepth(c.addrs[who], leaf(m, bodyOfStaking(m, valID)), depth)}
+				res := c.deliver(who, msgsOf(ns), sdk.Coins{})
+				self := "other"
+				if who == j {
+					self = "self"
+				}
+				if res.Code == 0 {
+					executed++
+					ctx2 := c.dctx()
+					tv2, _ := c.app.StakingKeeper.GetValidator(ctx2, valOf(j))
+					out.Emit(fmt.Sprintf("chk c19.effpow.jailed.%s tag=ante.deliver.power.jailed.%s %s %s", self, self, tv2.Tokens.BigInt(), c.stakeTotal(ctx2)), "true",
+						fmt.Sprintf("tx.pow.jailed.%s.ok.depth%d", self, depth), true)
+					if who == j && rng.Chance(1, 2) {
+						// …and comes back into the active set at that size
+						c.end()
+						c.begin()
+						if ur := c.deliver(j, []sdk.Msg{slashingtypes.NewMsgUnjail(valOf(j))}, sdk.Coins{}); ur.Code == 0 {
+							jailed[j] = false
+							out.Hist["tx.unjail.ok"]++
+						} else {
+							out.Hist["tx.unjail.refused"]++
+						}
+					}
+				} else {
+					refused++
+					out.Hist[fmt.Sprintf("tx.pow.jailed.%s.refused.depth%d", self, depth)]++
 				}
 			case 3: // a fresh account creates its validator and delegates to it in the same transaction
 				if nextFresh >= NA {
